@@ -212,23 +212,23 @@ theorem Reads.container {a : Acc} {v : Val} (h : Reads a v) (ρ : Env) :
 
 /-! ### map entries -/
 
-theorem mEnts_spec (es : List Ent) (v : Val) (ρ : Env) :
-    (∀ β, DeclEnts es v β → mEnts C es (.tmp v) ρ = .ok (ρ.apply β)) ∧
-    (∀ ρ', mEnts C es (.tmp v) ρ = .ok ρ' → ∃ β, DeclEnts es v β ∧ ρ' = ρ.apply β) ∧
-    (∀ ρ', mEnts C es (.tmp v) ρ ≠ .done ρ') := by
+theorem mEntsSeq_spec (es : List Ent) (v : Val) (ρ : Env) :
+    (∀ β, DeclEnts es v β → mEntsSeq C es (.tmp v) ρ = .ok (ρ.apply β)) ∧
+    (∀ ρ', mEntsSeq C es (.tmp v) ρ = .ok ρ' → ∃ β, DeclEnts es v β ∧ ρ' = ρ.apply β) ∧
+    (∀ ρ', mEntsSeq C es (.tmp v) ρ ≠ .done ρ') := by
   induction es generalizing ρ with
-  | nil => simp [mEnts, DeclEnts]
+  | nil => simp [mEntsSeq, DeclEnts]
   | cons e es ih =>
     refine ⟨?_, ?_, ?_⟩
     · rintro β ⟨m, x, β', rfl, hl, ht, hd, rfl⟩
-      simp only [mEnts, Src.rd, tryAccess, hl, ht]
+      simp only [mEntsSeq, Src.rd, tryAccess, hl, ht]
       cases hb : e.bind with
       | none => simpa using (ih ρ).1 β' hd
       | some n => simpa [Env.apply] using (ih (ρ.set n x)).1 β' hd
     · intro ρ' h
       cases v with
       | map m =>
-        simp only [mEnts, Src.rd, tryAccess] at h
+        simp only [mEntsSeq, Src.rd, tryAccess] at h
         cases hl : lookupKey e.key m with
         | none => simp [hl] at h
         | some x =>
@@ -246,11 +246,11 @@ theorem mEnts_spec (es : List Ent) (v : Val) (ρ : Env) :
               simp only [hb] at h
               obtain ⟨β', hd, rfl⟩ := (ih (ρ.set n x)).2.1 ρ' (by simpa using h)
               exact ⟨(n, x) :: β', ⟨m, x, β', rfl, hl, ht, hd, by simp [hb]⟩, rfl⟩
-      | _ => cases hc : C.accessFalls <;> simp [mEnts, Src.rd, tryAccess, hc] at h
+      | _ => cases hc : C.accessFalls <;> simp [mEntsSeq, Src.rd, tryAccess, hc] at h
     · intro ρ' h
       cases v with
       | map m =>
-        simp only [mEnts, Src.rd, tryAccess] at h
+        simp only [mEntsSeq, Src.rd, tryAccess] at h
         cases hl : lookupKey e.key m with
         | none => simp [hl] at h
         | some x =>
@@ -262,7 +262,68 @@ theorem mEnts_spec (es : List Ent) (v : Val) (ρ : Env) :
             cases hb : e.bind with
             | none => simp only [hb] at h; exact (ih ρ).2.2 ρ' (by simpa using h)
             | some n => simp only [hb] at h; exact (ih (ρ.set n x)).2.2 ρ' (by simpa using h)
-      | _ => cases hc : C.accessFalls <;> simp [mEnts, Src.rd, tryAccess, hc] at h
+      | _ => cases hc : C.accessFalls <;> simp [mEntsSeq, Src.rd, tryAccess, hc] at h
+
+theorem collect_some_iff : ∀ (es : List Ent) (v : Val) (β : Writes),
+    collectEnts C es v = .ok (some β) ↔ DeclEnts es v β
+  | [], v, β => by simp [collectEnts, DeclEnts, eq_comm]
+  | e :: es, v, β => by
+    have ih := fun β' => collect_some_iff es v β'
+    cases v with
+    | map m =>
+      simp only [collectEnts, tryAccess, DeclEnts]
+      constructor
+      · intro h
+        cases hl : lookupKey e.key m with
+        | none => simp [hl] at h
+        | some x =>
+          simp only [hl] at h
+          cases ht : tyFail e.ty x with
+          | true => simp [ht] at h
+          | false =>
+            simp only [ht, Bool.false_eq_true, if_false] at h
+            cases hc : collectEnts C es (.map m) with
+            | error er => simp [hc] at h
+            | ok o =>
+              cases o with
+              | none => simp [hc] at h
+              | some β' =>
+                simp only [hc, Except.ok.injEq, Option.some.injEq] at h
+                exact ⟨m, x, β', rfl, hl, ht, (ih β').1 hc, h.symm⟩
+      · rintro ⟨m', x, β', hm, hl, ht, hd, rfl⟩
+        cases hm
+        simp [hl, ht, (ih β').2 hd]
+    | null => cases hc : C.accessFalls <;> simp [collectEnts, tryAccess, DeclEnts, hc]
+    | bool b => cases hc : C.accessFalls <;> simp [collectEnts, tryAccess, DeclEnts, hc]
+    | num n => simp [collectEnts, tryAccess, DeclEnts]
+    | str bs => simp [collectEnts, tryAccess, DeclEnts]
+    | range a b => simp [collectEnts, tryAccess, DeclEnts]
+    | tuple xs => simp [collectEnts, tryAccess, DeclEnts]
+    | list xs => simp [collectEnts, tryAccess, DeclEnts]
+
+theorem mEnts_spec (es : List Ent) (v : Val) (ρ : Env) :
+    (∀ β, DeclEnts es v β → mEnts C es (.tmp v) ρ = .ok (ρ.apply β)) ∧
+    (∀ ρ', mEnts C es (.tmp v) ρ = .ok ρ' → ∃ β, DeclEnts es v β ∧ ρ' = ρ.apply β) ∧
+    (∀ ρ', mEnts C es (.tmp v) ρ ≠ .done ρ') := by
+  unfold mEnts
+  split
+  · simp only [Src.rd]
+    refine ⟨?_, ?_, ?_⟩
+    · intro β hd; rw [(collect_some_iff es v β).2 hd]
+    · intro ρ' h
+      cases hc : collectEnts C es v with
+      | error er => rw [hc] at h; cases h
+      | ok o =>
+        cases o with
+        | none => rw [hc] at h; cases h
+        | some β =>
+          rw [hc] at h; simp only [R.ok.injEq] at h
+          exact ⟨β, (collect_some_iff es v β).1 hc, h.symm⟩
+    · intro ρ' h
+      cases hc : collectEnts C es v with
+      | error er => rw [hc] at h; cases h
+      | ok o => cases o <;> (rw [hc] at h; cases h)
+  · exact mEntsSeq_spec es v ρ
 
 /-! ### the correctness statement (last alternative) -/
 
@@ -1187,10 +1248,10 @@ theorem within_fin (xs : List Name) (ρ ρ' : Env) (la il : Bool) (h : Agree xs 
     Within xs ρ (fin la il ρ') := by
   unfold fin; split <;> exact h
 
-theorem frame_ents : ∀ (es : List Ent) (s : Src) (ρ : Env), Within (entVars es) ρ (mEnts C es s ρ)
-  | [], _, ρ => by simp [mEnts, Within, Agree.refl]
+theorem frame_entsSeq : ∀ (es : List Ent) (s : Src) (ρ : Env), Within (entVars es) ρ (mEntsSeq C es s ρ)
+  | [], _, ρ => by simp [mEntsSeq, Within, Agree.refl]
   | e :: es, s, ρ => by
-    simp only [mEnts]
+    simp only [mEntsSeq]
     split
     · trivial
     · exact Agree.refl _ _
@@ -1203,7 +1264,22 @@ theorem frame_ents : ∀ (es : List Ent) (s : Src) (ρ : Env), Within (entVars e
       · simp only [Within]; split
         · exact Agree.refl _ _
         · exact hstep
-      · exact Within.trans hstep ((frame_ents es s _).mono (by intro x hx; simp [entVars, hx]))
+      · exact Within.trans hstep ((frame_entsSeq es s _).mono (by intro x hx; simp [entVars, hx]))
+
+theorem frame_ents (es : List Ent) (s : Src) (ρ : Env) : Within (entVars es) ρ (mEnts C es s ρ) := by
+  unfold mEnts
+  split
+  · cases hc : collectEnts C es (s.rd ρ) with
+    | error er => trivial
+    | ok o =>
+      cases o with
+      | none => exact Agree.refl _ _
+      | some β =>
+        simp only [Within]
+        intro y hy
+        have hn := declEnts_names es _ β ((collect_some_iff es _ β).1 hc)
+        exact apply_frame ρ β y (by rwa [hn])
+  · exact frame_entsSeq es s ρ
 
 mutual
 theorem frame_pat (F : FloatOps) : ∀ (p : Pat) (la il : Bool) (a : Acc) (ρ : Env),
